@@ -3641,6 +3641,15 @@ void space_text()
                           __func__, __LINE__, pc->Text(), next->Text());
                   pc->SetFlagBits(PCF_FORCE_SPACE);
                }
+               else if (  pc->GetStr()[pc->Len() - 1] == '/'
+                       && (  next->GetStr()[0] == '*'
+                          || next->GetStr()[0] == '/'))
+               {
+                  // '/' followed by '*' or '/' would start a comment
+                  LOG_FMT(LSPACE, "%s(%d): '/' before '%s' needs a space\n",
+                          __func__, __LINE__, next->Text());
+                  pc->SetFlagBits(PCF_FORCE_SPACE);
+               }
                // TODO:  what is the meaning of 4
                else if (  !kw1
                        && !kw2
